@@ -2,16 +2,16 @@
 # usage: confirm_seed.sh <seed_dir> <crate: imap-proto|tokio-imap> <name>
 # Confirms in a scratch worktree that a seeded change (a) applies, (b) builds, (c) keeps the existing
 # 78 tests green, (d) makes its demonstration fail, and that the demonstration passes without it.
-d="$1"; crate="$2"; name="$3"
+d="$1"; crate="$2"; name="$3"; feat=""; [ "$crate" = "tokio-imap" ] && feat="--features djc_tokio_imap_verif"
 wt=/tmp/confirm_$name
 git -C /repo worktree remove --force $wt 2>/dev/null
 git -C /repo worktree add -q --detach $wt HEAD || exit 2
 cd $wt
 mkdir -p $crate/tests
 cp "$d/demo.rs" $crate/tests/seed_demo.rs
-base=$(CARGO_NET_OFFLINE=true cargo test --offline -p $crate --test seed_demo 2>&1 | grep -E "^test result" | head -1)
+base=$(CARGO_NET_OFFLINE=true cargo test --offline -p $crate $feat --test seed_demo 2>&1 | grep -E "^test result" | head -1)
 git apply "$d/patch.diff" || { echo "APPLY-FAIL"; exit 2; }
 suite=$(CARGO_NET_OFFLINE=true cargo test --workspace --offline --lib 2>&1 | grep -E "^test result" | head -1)
-demo=$(CARGO_NET_OFFLINE=true cargo test --offline -p $crate --test seed_demo 2>&1 | grep -E "^test result|signal|abort|panicked" | head -3 | tr '\n' ' ')
+demo=$(CARGO_NET_OFFLINE=true cargo test --offline -p $crate $feat --test seed_demo 2>&1 | grep -E "^test result|signal|abort|panicked" | head -3 | tr '\n' ' ')
 echo "$name: unchanged-demo=[$base] suite-with-change=[$suite] demo-with-change=[$demo]"
 cd /; git -C /repo worktree remove --force $wt
